@@ -1,12 +1,14 @@
 (* C15 - converting a rule gives the same result whatever was converted before.
    Only statements, each closed by `exact`, with Print Assumptions.
 
-   World = parse cache + type-hint cache + backend class templates + owner link of every
+   World = parse cache + type-hint cache + backend class templates + value cache of every
+   external-source transformation object + owner link of every
    processing item object + per-rule fields of every pipeline object + backends (Model/History.v).
    A history is any list of operations {load, new backend, init pipeline, convert collection,
    convert rule}; failing conversions are conversions of rules that fail (at the pipeline, in the
-   condition parser, at an undefined identifier, while rendering, while rendering inside a negated
-   not-equals leaf).  `ideal_obs_*` (Spec/Frame.v) is a function of the rule, the pipeline
+   condition parser, at an undefined identifier, in an external source (security check, fetch, parse),
+   while rendering, while rendering inside a negated not-equals leaf - Sigma errors and backend
+   NotImplementedError).  `ideal_obs_*` (Spec/Frame.v) is a function of the rule, the pipeline
    definitions and the backend configuration only. *)
 From Coq Require Import NArith List Bool String.
 From PS Require Import Base.Chars Base.Outcome Model.History Spec.Frame Proofs.History15P Proofs.HistoryRefP Proofs.HistorySharingP.
@@ -68,11 +70,15 @@ Proof. exact fresh_coll. Qed.
 Print Assumptions C15_fresh_collection.
 
 (* after every history - including conversions that raised at any stage, also inside a negated
-   not-equals leaf - the class templates are the original ones and every cached parse is what the
-   grammar yields for its key (nothing a rule did to its copy is visible to the next rule) *)
+   not-equals leaf, and conversions during which an external source was denied, could not be
+   fetched or could not be parsed - the class templates are the original ones, every cached parse is
+   what the grammar yields for its key (nothing a rule did to its copy is visible to the next rule),
+   and a value list cached by an external-source transformation object is exactly what its source
+   yields: a failed fetch / parse leaves no cache entry behind *)
 Theorem C15_state_restored : forall E ops,
   let w := fst (run E init ops) in
-  (forall c, w_tpl w c = tpl0) /\ (forall k t, lookup k (w_cache w) = Some t -> e_parse E k = Some t).
+  (forall c, w_tpl w c = tpl0) /\ (forall k t, lookup k (w_cache w) = Some t -> e_parse E k = Some t) /\
+  (forall i it d v, w_vc w i = Some v -> valid_pair E i it -> i_tr it = TFile d -> e_src E d = Ok v).
 Proof. exact invariant_reachable. Qed.
 Print Assumptions C15_state_restored.
 
